@@ -135,14 +135,20 @@ def reconstruct_case(path, lineno):
                             stall=c.get("stall", [])) for c in calls])
 
 
-def generate(binary, plan, outdir, sd):
+# share of calls whose final handlers issue further mutations (queued behind the
+# running transition; exercises duplicate detection, the Remove shortcut and the
+# queue limit of 4)
+NESTP = {"C01": 0.2, "C03": 0.3, "C14": 0.3, "C05": 0.1, "C07": 0.2}
+
+
+def generate(binary, plan, outdir, sd, nestp=0.0):
     files = []
     ncases = nlines = 0
     for k, (mode, n, calls, vetop) in enumerate(plan):
         pref = os.path.join(outdir, "%s%d" % (mode, k))
         rc, out = run([binary, "seq", "-mode", mode, "-n", str(n), "-calls", str(calls),
-                       "-seed", str(sd * 1000 + k), "-vetop", str(vetop), "-out", pref,
-                       "-shards", "16"], timeout=1200)
+                       "-seed", str(sd * 1000 + k), "-vetop", str(vetop), "-nestp", str(nestp),
+                       "-out", pref, "-shards", "16"], timeout=1200)
         if rc != 0:
             raise Inconclusive("driver failed (%s): %s" % (mode, out[-2000:]))
         st = json.loads(out.strip().splitlines()[-1])
@@ -214,7 +220,7 @@ def check(prop, tier):
     run_mc(prop, tier, rep)
     d = scratch(prop)
     try:
-        files, ncases, nlines = generate(binary, PLANS[tier][prop], d, sd)
+        files, ncases, nlines = generate(binary, PLANS[tier][prop], d, sd, NESTP.get(prop, 0.0))
         lines, ntx = validate(prop, files, rep)
         ntx2, distinct, samples = nontrivial_stats(files)
         if prop == "C01":
